@@ -235,6 +235,10 @@ func init() {
 			{`<% let g = fn() { return nil } %><%= g() == nil %>|<%= if (g()) { %>T<% } else { %>F<% } %>`, "true|F"},
 			{`<% let x = 5 %><% let g = fn(x) { let x = x + 1
  return x } %><%= g(1) %>|<%= x %>`, "2|5"},
+			// a call that is handed an INLINE function literal, used as a condition (tested, compared) like any other call
+			{`<% let apply = fn(g, v) { return g(v) } %><%= if (apply(fn(y) { return y + 1 }, 1) == 2) { %>two<% } else { %>no<% } %>|<%= apply(fn(y) { return y * 2 }, 4) %>`, "two|8"},
+			{`<% let apply = fn(g, v) { return g(v) } %><% let pick = fn(a) { if (apply(fn(y) { return y == 1 }, a)) { return "one" } return "other" } %><%= pick(1) %>,<%= pick(2) %>`, "one,other"},
+			{`<% let any = fn(g) { return g() } %><%= if (any(fn() { return true })) { %>T<% } %><%= if (!any(fn() { return false })) { %>F<% } %>`, "TF"},
 			// a function stored in an array or a hash, called through the element
 			{`<% let fs = [fn(x) { return x + 1 }, fn(x) { return x * 3 }] %><%= fs[0](5) %>|<%= fs[1](5) %>|<%= fs[0](fs[1](2)) %>`, "6|15|7"},
 			{`<% let h = {"inc": fn(x) { return x + 1 }} %><%= h["inc"](41) %>|<%= if (h["inc"](0) == 1) { %>one<% } %>`, "42|one"},
